@@ -292,7 +292,13 @@ func Run(s *Stream, g *G, tier string, seed int64, modelBin string, corpus []M, 
 			}
 			sort.Strings(props)
 			for _, p := range props {
-				if s.NoShrink || shrunk[caseClass("oracle:"+p, op)] >= 3 {
+				// an operation that ended its child process is not run again in this process, so it is
+				// not minimised either
+				ended := false
+				if sv, isS := impl[i].(string); isS && strings.HasPrefix(sv, "process-ended") {
+					ended = true
+				}
+				if s.NoShrink || ended || shrunk[caseClass("oracle:"+p, op)] >= 3 {
 					rep.Cases = append(rep.Cases, Case{Property: p, Kind: "oracle", Stream: s.Name, Op: op, Impl: impl[i],
 						Messages: append([]string{"(not minimised)"}, byProp[p]...)})
 					continue
